@@ -158,7 +158,14 @@ func run(c *Case) *vkit.Outcome {
 	var envTimeouts atomic.Int32
 	var curPlanned atomic.Value // kind planned for the append in flight
 	base.OnInnerError = func(op string, err error) {
-		if k, _ := curPlanned.Load().(string); k == "" && (errors.Is(err, context.DeadlineExceeded) || errors.Is(err, context.Canceled)) {
+		if !errors.Is(err, context.DeadlineExceeded) && !errors.Is(err, context.Canceled) {
+			return
+		}
+		if op == "append-bypass" {
+			envTimeouts.Add(1) // a notice timed out inside the inner store
+			return
+		}
+		if k, _ := curPlanned.Load().(string); k == "" {
 			envTimeouts.Add(1)
 		}
 	}
